@@ -11,7 +11,7 @@ from vp import sim as S
 
 ID = 'C11'
 RULE = ('Smallest powertrain (motor + one gear; in a fifth of the cases a self-locking worm drive that is held throughout, by '
-        'overload or by a zero duty cycle; a continuation may use a new Solver object). Hypothesis draws dt = m * 10^-e (m 1..999, e 0..4) in each of the 4 '
+        'overload or by a zero duty cycle; a continuation may use a new Solver object; in a seventh of the cases a second Powertrain object is then built over the same, not reset, chain and run afresh: it must record the full grid from 0 and leave the first axis alone). Hypothesis draws dt = m * 10^-e (m 1..999, e 0..4) in each of the 4 '
         'time units, n = 2..200 steps (part long-grids: 8192..150000 steps), T written either as the float product dt*n or as the decimal literal of '
         'm*n*10^-e, in the same or in another time unit; optionally a continuation (dt2, n2) built the same way, '
         'and optionally a stop condition. Oracle in exact rational seconds: a fresh run records n+1 instants, '
@@ -144,6 +144,32 @@ def check(case) -> Result:
                     f'{case}: after reset the same Solver recorded {len(times)} instants from {float(times[0]) if times else None!r} '
                     f's to {float(times[-1]) if times else None!r} s, expected {len(expect)} from 0 to {float(expect[-1])!r} s')
         res.classes += ('rerun',)
+    if case.get('second_view') and not res.violations:
+        # a second Powertrain object over the same, already simulated and NOT reset, chain: its own time axis is empty,
+        # so its first run is a fresh one and must record 0, dt, ..., T; the first powertrain's axis stays as it was
+        from gearpy.powertrain import Powertrain
+        r = case
+        first = b.powertrain
+        first_axis = [(x.value, x.unit) for x in first.time]
+        try:
+            b.powertrain = Powertrain(motor=b.motor)
+            b.solver = None
+            S.run_op(b, {'op': 'run', 'dt': [float(Fr(r['m'], 10 ** r['e'])), r['unit']], 'T': [_T(r), r['t_unit']]})
+        except Exception as ex:  # noqa
+            res.bad(f'C11/second-view-raised/{type(ex).__name__}', f'{case}: second Powertrain over the same chain: {type(ex).__name__}: {ex}')
+            return _finish(res, case)
+        dte = _exact_si(r['m'], r['e'], r['unit'])
+        times = [Fr(x.value) * U.factor('Time', x.unit) for x in b.powertrain.time]
+        expect = [k * dte for k in range(r['n'] + 1)]
+        tol = Fr(1, 10 ** 9) * max(expect[-1], dte)
+        if len(times) != len(expect) or any(abs(g - e) > tol for g, e in zip(times, expect)):
+            res.bad('C11/second-view/not-a-fresh-grid',
+                    f'{case}: a second Powertrain built over the simulated chain recorded {len(times)} instants from '
+                    f'{float(times[0]) if times else None!r} s to {float(times[-1]) if times else None!r} s, expected {len(expect)} '
+                    f'from 0 to {float(expect[-1])!r} s')
+        if [(x.value, x.unit) for x in first.time] != first_axis:
+            res.bad('C11/second-view/first-axis-changed', f'{case}: running the second Powertrain changed the time axis of the first')
+        res.classes += ('second-view',)
     return _finish(res, case)
 
 
@@ -181,6 +207,8 @@ def s_case(draw, max_n=200):
         c['held'] = draw(st.sampled_from(['overload', 'zero-duty']))
     if draw(st.integers(0, 4)) == 0:
         c['rerun'] = True
+    elif draw(st.integers(0, 5)) == 0:
+        c['second_view'] = True      # a second Powertrain over the simulated chain, run afresh
     c['stop'] = draw(st.floats(0.05, 1.5)) if draw(st.integers(0, 4 if not c.get('cont') else 1)) == 0 \
         and not c.get('held') else None
     return c
